@@ -87,11 +87,11 @@ def opOfJson (j : Json) : Except String Op := do
   | "remove" => do pure (.remove (← r))
   | "pop" => do pure (.pop (← i))
   | "getitem" => do pure (.getItem (← i))
-  | "extend_list" => do pure (.extendList (← l))
+  | "extend_list" | "extend_iter" => do pure (.extendList (← l))
   | "extend_ar" => do pure (.extendAR (← l))
   | "extend_self" => pure .extendSelf
   | "extend_aux" => pure .extendAux
-  | "iadd_list" => do pure (.iaddList (← l))
+  | "iadd_list" | "iadd_iter" => do pure (.iaddList (← l))
   | "iadd_ar" => do pure (.iaddAR (← l))
   | "iadd_self" => pure .iaddSelf
   | "iadd_aux" => pure .iaddAux
@@ -103,7 +103,7 @@ def opOfJson (j : Json) : Except String Op := do
   | "getslice" => do pure (.getSlice (← sl))
   | "setitem" => do pure (.setItem (← i) (← r))
   | "delitem" => do pure (.delItem (← i))
-  | "setslice" => do pure (.setSlice (← sl) (← l))
+  | "setslice" | "setslice_iter" => do pure (.setSlice (← sl) (← l))
   | "delslice" => do pure (.delSlice (← sl))
   | "clear" => pure .clear
   | "sort" => do pure (.sort ((j.getObjVal? "rev" >>= Json.getBool?).toOption.getD false))
